@@ -40,6 +40,11 @@ class Interp:
     def where(self):
         return self.call_stack[-1] if self.call_stack else ''
 
+    def fullname(self, f):
+        if f.real is not None:
+            return f'{f.real.__module__}.{f.real.__qualname__}'
+        return f.qualname
+
     def truth(self, v):
         if isinstance(v, bool) or v is None or isinstance(v, (int, str, float, list, dict, set, tuple, frozenset)):
             return bool(v)
@@ -957,6 +962,7 @@ class Interp:
             e = PyExc(v.cls, v.args, s.lineno, self.where())
             e.attrs = v.attrs
             e.value = v
+            e.locals = dict(fr.locals)          # ghost: state at the raise site, for exceptional postconditions
             raise e
         if isinstance(v, PyExc):
             raise v
@@ -1138,7 +1144,7 @@ class Interp:
         For `for` loops g['i'] is the ghost iteration index (number of completed iterations) and
         g['seq'] the iterable (anything with seq_len()/elem()); the variant is seq_len - i by construction."""
         run = self.run
-        name = f'{fr.fn.qualname}#loop{getattr(s, "_ordinal", "")}'
+        name = f'{self.fullname(fr.fn)}#loop{getattr(s, "_ordinal", "")}'
         env = fr.locals
         is_for = isinstance(s, (ast.For, ast.AsyncFor))
         g = {}
@@ -1171,6 +1177,7 @@ class Interp:
                 if not self.branch(self.eval(s.test, fr), f'L{s.lineno}.while'):
                     raise PathEnd('guard false in body path')
             v0 = spec.var(self, env, g) if spec.var else None
+            pre_env = dict(env)
             try:
                 self.exec_block(s.body, fr)
             except ContinueSig:
@@ -1181,6 +1188,9 @@ class Interp:
                 g['i'] = g['i'] + 1
             for label, claim in spec.inv(self, env, g).items():
                 run.oblige(f'{name}.inv.preserve:{label}', claim)
+            if spec.step:
+                for label, claim in spec.step(self, pre_env, env, g).items():
+                    run.oblige(f'{name}.step:{label}', claim)
             if v0 is not None:
                 v1 = spec.var(self, env, g)
                 run.oblige(f'{name}.variant', And(zint(v0) >= 0, zint(v1) < zint(v0)))
@@ -1216,7 +1226,7 @@ class Interp:
     def call_real(self, fn, args, kwargs, node):
         c = self.reg.lookup(fn)
         top = self.call_stack[0] if self.call_stack else None
-        if c is not None and not (self.reg.under_proof is fn and not self.call_stack):
+        if c is not None and not (self.reg.under_proof is fn and not self.call_stack) and c.use_contract_at(self, args, kwargs):
             from .contracts import apply_contract
             return apply_contract(self, c, fn, args, kwargs, node)
         from . import models
@@ -1311,7 +1321,7 @@ class Interp:
         fr.locals.update(loc)
         if f.is_async and f.is_gen and '__yielded__' not in fr.locals:
             fr.locals['__yielded__'] = []
-        self.call_stack.append(f.qualname)
+        self.call_stack.append(self.fullname(f))
         try:
             if isinstance(f.node, ast.Lambda):
                 return self.eval(f.node.body, fr)
